@@ -219,6 +219,13 @@ def stage_oracle(ctx: Ctx, progs, tracer):
         if piece is None:
             continue
         rec['piece'] = piece.src
+        # (1b) self-contained: no AST node object of the piece is shared with the tree it was read from
+        if not isinstance(piece, str) and hasattr(piece, 'a'):
+            mine = {id(n) for n in ast.walk(root.a)}
+            shared = [type(n).__name__ for n in ast.walk(piece.a) if id(n) in mine and not isinstance(n, (ast.expr_context, ast.operator, ast.unaryop, ast.cmpop, ast.boolop))]
+            if shared:
+                ctx.violation(f'piece-shares-nodes|{kind}', 'the returned tree shares AST node objects with the tree it was copied from', {**rec, 'shared': shared[:5]})
+                continue
         # (2) the piece stands alone: parses (its own kind) and its tree equals that parse incl. positions
         try:
             piece.verify()
